@@ -280,6 +280,24 @@ def check_case(case, ctx):
         is_circuit_satisfiable(c)
     except Exception as e:
         ctx.unexpected('is_circuit_satisfiable', e, case)
+    # the property relates the CNF to what the outputs *evaluate* to: the library's own evaluation of the same object is
+    # compared with the reference used above (all assignments of small circuits)
+    if len(net.inputs) <= 5 and 'deep' not in case.get('net', {}):
+        try:
+            ints, ns = refsem.output_ints(net)
+            n = len(net.inputs)
+            for k in range(ns):
+                bits = [bool((k >> (n - 1 - i)) & 1) for i in range(n)]
+                with monitor.suspended():
+                    got = list(c.evaluate(bits))
+                want = [bool((v >> k) & 1) for v in ints]
+                ctx.count('library_evaluation_compared')
+                if not all(g == w for g, w in zip(got, want)) or len(got) != len(want):
+                    ctx.violation('Circuit.evaluate', 'wrong_result', 'evaluation_disagrees_with_reference',
+                                  'evaluate(%r) = %r, reference %r' % (bits, got, want), case)
+                    break
+        except Exception as e:
+            ctx.unexpected('Circuit.evaluate', e, case)
 
 
 def run_size_sweep(spec, ctx):
